@@ -705,6 +705,19 @@ func (nsi *namespacedInformer) stop() {
 	close(nsi.stopCh)
 }
 
+// isTaskOfUnwatchedNamespace tells whether the task is about a namespaced resource whose namespace has no
+// informers (any more); the sync functions of those kinds look the object up in the informers of its namespace.
+func (lbc *LoadBalancerController) isTaskOfUnwatchedNamespace(task task) bool {
+	switch task.Kind {
+	case ingress, endpointslice, secret, service, virtualserver, virtualServerRoute, transportserver, policy,
+		appProtectPolicy, appProtectLogConf, appProtectUserSig, appProtectDosPolicy, appProtectDosLogConf,
+		appProtectDosProtectedResource:
+		ns, _, _ := cache.SplitMetaNamespaceKey(task.Key)
+		return lbc.getNamespacedInformer(ns) == nil
+	}
+	return false
+}
+
 func (lbc *LoadBalancerController) getNamespacedInformer(ns string) *namespacedInformer {
 	var nsi *namespacedInformer
 	var isGlobalNs bool
@@ -1025,6 +1038,11 @@ func (lbc *LoadBalancerController) sync(task task) {
 	if lbc.batchSyncEnabled && task.Kind != endpointslice {
 		nl.Debug(lbc.Logger, "Task is not endpointslice - enabling batch reload")
 		lbc.enableBatchReload = true
+	}
+	if lbc.isTaskOfUnwatchedNamespace(task) {
+		// queued before the namespace stopped being watched: its resources were removed when the watch ended
+		nl.Debugf(lbc.Logger, "Ignoring %v: its namespace is not watched", task.Key)
+		task.Kind = ignoredTask
 	}
 	switch task.Kind {
 	case ingress:
